@@ -297,7 +297,8 @@ static int recv_events(m_ctx_t *c, int timeout) {
                     if (p->type != M_SRC_TYPE_PS) {
                         unpoll_src(p);
                         m_bst_remove(mod->srcs[p->type], p);
-                    } else {
+                    } else if (m_map_get(mod->subscriptions, p->ps_src.topic) == p) {
+                        /* Only if it was not replaced by a new subscription to the same topic meanwhile */
                         m_map_remove(mod->subscriptions, p->ps_src.topic);
                     }
                 }
